@@ -49,6 +49,7 @@ def run(prop, tier):
                      "weights integer or dyadic, so all comparisons are exact",
                      "C15 reads private members via -fno-access-control; member names are an interface of this harness (build failure = harness error)"]
     binary = _build()
+    c.builds_done()
     skipped = 0
     for bound, arglists in runs(prop, tier):
         for args in arglists:
